@@ -88,7 +88,7 @@ func rewriteFile(path string, names map[string]bool) int {
 	if err != nil {
 		die("parse %s: %v", path, err)
 	}
-	syncName := ""
+	syncName, atomicName := "", ""
 	for _, imp := range file.Imports {
 		p, _ := strconv.Unquote(imp.Path.Value)
 		if p == "sync" {
@@ -97,26 +97,45 @@ func rewriteFile(path string, names map[string]bool) int {
 				syncName = imp.Name.Name
 			}
 		}
+		if p == "sync/atomic" && names["Mutex"] {
+			atomicName = "atomic"
+			if imp.Name != nil {
+				atomicName = imp.Name.Name
+			}
+		}
 	}
-	if syncName == "" {
+	if syncName == "" && atomicName == "" {
 		return 0
 	}
+	atomicTypes := map[string]bool{"Pointer": true, "Value": true, "Int64": true, "Int32": true, "Uint64": true, "Uint32": true, "Bool": true}
 	n := 0
-	otherUse := false
+	otherUse, otherAtomic := false, false
 	ast.Inspect(file, func(node ast.Node) bool {
 		sel, ok := node.(*ast.SelectorExpr)
 		if !ok {
 			return true
 		}
 		id, ok := sel.X.(*ast.Ident)
-		if !ok || id.Name != syncName || id.Obj != nil {
+		if !ok || id.Obj != nil {
 			return true
 		}
-		if names[sel.Sel.Name] {
-			id.Name = "simsync"
-			n++
-		} else {
-			otherUse = true
+		switch {
+		case syncName != "" && id.Name == syncName:
+			if names[sel.Sel.Name] {
+				id.Name = "simsync"
+				n++
+			} else {
+				otherUse = true
+			}
+		case atomicName != "" && id.Name == atomicName:
+			// the typed atomics become scheduler decision points (the function forms, atomic.AddInt64(&x, 1), stay as they are)
+			if atomicTypes[sel.Sel.Name] {
+				id.Name = "simsync"
+				sel.Sel.Name = "Atomic" + sel.Sel.Name
+				n++
+			} else {
+				otherAtomic = true
+			}
 		}
 		return true
 	})
@@ -134,6 +153,9 @@ func rewriteFile(path string, names map[string]bool) int {
 			is := s.(*ast.ImportSpec)
 			p, _ := strconv.Unquote(is.Path.Value)
 			if p == "sync" && !otherUse {
+				continue
+			}
+			if p == "sync/atomic" && atomicName != "" && !otherAtomic {
 				continue
 			}
 			specs = append(specs, s)
